@@ -8,7 +8,7 @@ import Nstd.Callback.Spec
   invocation# < 8) of at most 8 actions.  An emission carries one number `v < 10`: the harness passes
   `(v, v+1, …, v+g-1)`, the slot checks the tuple and logs `v` (`v` must be 0 for signal 0).
 
-    reset
+    reset | reuse                         (`reuse`: the harness re-creates objects at the address of their predecessor)
     script <l> <s> <k> <action>*          body of slot s of listener l at its k-th invocation
     connect <e> <g> <l> <s> | disconnect <e> <g> <l> <s> | emit <e> <g> <v> | dell <l> | dele <e>
     newl <l> | newe <e>                   a destroyed object is replaced by a new one
@@ -152,6 +152,9 @@ def obs (d : DState) : String :=
 def stepLine (d : DState) (ws : List String) : DState × String :=
   match ws with
   | ["reset"] => (DState.init, "ok")
+  -- `reuse` = `reset`; the harness constructs its objects in place from then on, so that a re-created object
+  -- has the address of its destroyed predecessor (the model knows no addresses: nothing may change)
+  | ["reuse"] => (DState.init, "ok")
   | "script" :: l :: s :: k :: toks =>
     match num l NL, num s NS, num k MAXK, toks.mapM parseAction with
     | some l, some s, some k, some as =>
